@@ -990,6 +990,10 @@ def mutate(rng, base, name):
     elif name == "otab_cycle":
         t = rng.pick(c["otabs"])
         tgt = rng.pick([t["off"], 0x2000, rng.pick(c["otabs"])["off"]])
+        if rng.chance(0.5):
+            # ... or an offset that is not on the file's alignment, just below a table (a reader that rounds offsets up
+            # would land on that table again without recognising it)
+            tgt = max(0x1100, (t["off"] if rng.chance(0.7) else tgt) - rng.pick([1, 8, 0x800, 0xEFF]))
         t["entries"].insert(rng.randint(0, len(t["entries"])), {"type": O_OTAB, "off": tgt, "size": 0x1000, "alloc": 1})
         # keep the table inside its region: drop an ignored trailing entry if there is one, else accept overlap
         if any(e["alloc"] == 0 for e in t["entries"]):
@@ -1204,7 +1208,7 @@ class MalSuite(Suite):
                 continue
             name = MUTATIONS[k % len(MUTATIONS)]
             k += 1
-            if name == "otab_cycle" and tier != "thorough" and sum(1 for c in out if c["mutation"] == "otab_cycle") >= 2:
+            if name == "otab_cycle" and tier != "thorough" and sum(1 for c in out if c["mutation"] == "otab_cycle") >= 5:
                 continue
             m = mutate(rng, base, name)
             if m is not None:
